@@ -208,6 +208,8 @@ Proof.
     destruct b as [d s]; cbn [sbdata sbsize] in *. destruct r.
     + destruct (sb_ext_wf_a d s k W ltac:(specialize (A eq_refl); lia)) as (W' & V'). do 2 eexists. split; [reflexivity|]. split; [assumption|]. left; auto.
     + rewrite (B eq_refl). cbn [repeat]. rewrite app_nil_r. do 2 eexists. split; [reflexivity|]. split; [assumption|]. right; split; reflexivity.
+  - (* destroy *)
+    cbn [sb_step]. do 2 eexists. split; [reflexivity|]. split; [left; auto|]. left; split; reflexivity.
 Qed.
 
 (* in both outcomes the terminating NUL stays in place *)
